@@ -73,6 +73,10 @@ def run_split_case(ctx, idx, rng, tmp):
             model["features"]["image"][-1] = 0
     pin = tmp / "meas.rtdc"
     gd.write_model(pin, model, with_index=bool(rng.random() < 0.5))
+    if rng.random() < 0.5:
+        from vmon.gen import h5layout
+        h5layout.add_raw_logs(pin, rng)
+        ctx.count("inputs_with_raw_h5py_logs")
     r = rng.random()
     divisors = [d for d in range(1, n + 1) if n % d == 0]
     if r < 0.15:
@@ -227,6 +231,10 @@ def run_join_case(ctx, idx, rng, tmp):
         sub["meta"]["experiment"]["event count"] = sizes[j]
         p = tmp / f"in{j}.rtdc"
         gd.write_model(p, sub, with_index=bool(rng.random() < 0.5))
+        if rng.random() < 0.4:
+            from vmon.gen import h5layout
+            h5layout.add_raw_logs(p, rng)
+            ctx.count("inputs_with_raw_h5py_logs")
         paths.append(p)
     # the order in which the inputs are *given* is independent of their names and times
     given = [paths[i] for i in rng.permutation(len(paths))]
